@@ -2,4 +2,4 @@ SPECIFICATION Spec
 CONSTANTS
   MaxLeaves = 4100
   TermLeaves = 40
-INVARIANTS TypeOK SizeFormsOK NodeFormsOK BranchFormsOK ProofsOK
+INVARIANTS TypeOK SizeFormsOK NodeFormsOK BranchFormsOK ProofsOK ViewsOK RewindableOK ValidateOK AnyPosOK
